@@ -651,7 +651,7 @@ def non_interactions(graph, t=None):
     nodes = set(graph)
     while nodes:
         u = nodes.pop()
-        for v in nodes - set(graph[u]):
+        for v in nodes - set(all_neighbors(graph, u, t)):
             yield u, v
 
 
